@@ -318,6 +318,14 @@ func c05RunMode(w *W, liveness bool) {
 	d := q.Distributor()
 	nClients := 2 + simrt.Choose(3)
 	next := 0
+	// the queue may already hold items (and have used credit) when the
+	// concurrent phase starts
+	for k := simrt.Choose(4); k > 0; k-- {
+		next++
+		op := h.Invoke(0, qIn{"Add", next})
+		err := q.Add(next)
+		h.Return(op, qOut{Err: errClass(err)})
+	}
 	var calls []*blockingCall
 	mk := func() *blockingCall {
 		b := &blockingCall{}
